@@ -589,20 +589,15 @@ func (e *Engine) discharge(obls []*Obligation) {
 		genTime += d
 		genMu.Unlock()
 	}
-	for _, o := range obls {
-		if o.Res.Verdict != "" {
-			continue // decided by evaluation
-		}
-		wg.Add(1)
-		go func(o *Obligation) {
-			defer wg.Done()
-			sem <- struct{}{}
-			defer func() { <-sem }()
-			to := e.timeout
+	var work func(o *Obligation, scale int)
+	work = func(o *Obligation, scale int) {
+		{
+			to := e.timeout * scale
 			if o.Cover && to > 3 {
 				to = 3
 			}
-			var script, qf, inst, inst2 string
+			var script, qf, inst string
+			lastInstLen := -1
 			var names []string
 			if o.RawScript != "" {
 				o.Res = solve(o.Name, o.RawScript, e.timeout, e.all)
@@ -616,31 +611,33 @@ func (e *Engine) discharge(obls []*Obligation) {
 					}
 				})
 				if qf != "" {
-					r := solve(o.Name+"_qf", qf, 4, false)
+					r := solve(o.Name+"_qf", qf, 4*scale, false)
 					if r.Verdict == "unsat" {
 						r.Solver += " (quantifier-free hypotheses)"
 						o.Res = r
 						return
 					}
 				}
-				// stage 2: engine-side instantiation of quantified hypotheses
-				gen(o, func() {
-					o.wantInst = true
-					o.scriptWith(nil)
-					o.wantInst = false
-					if as, ok := instantiateQuery(o.vc.B, o.instAsserts, o.vc.B.Not(o.Goal), false); ok {
-						inst = o.vc.B.Query(as, nil)
-						if as2, ok := instantiateQuery(o.vc.B, o.instAsserts, o.vc.B.Not(o.Goal), true); ok && len(as2) != len(as) {
-							inst2 = o.vc.B.Query(as2, nil)
+				// stage 2: engine-side instantiation of quantified hypotheses (goal-directed first; the wide
+				// variant is generated only when that does not suffice)
+				for _, wide := range []bool{false, true} {
+					inst = ""
+					gen(o, func() {
+						o.wantInst = true
+						o.scriptWith(nil)
+						o.wantInst = false
+						if as, ok := instantiateQuery(o.vc.B, o.instAsserts, o.vc.B.Not(o.Goal), wide); ok {
+							if !wide || len(as) != lastInstLen {
+								inst = o.vc.B.Query(as, nil)
+							}
+							lastInstLen = len(as)
 						}
-					}
-					o.instAsserts = nil
-				})
-				for _, q := range []string{inst, inst2} {
-					if q == "" {
+						o.instAsserts = nil
+					})
+					if inst == "" {
 						continue
 					}
-					r := solve(o.Name+"_inst", q, 10, false)
+					r := solve(o.Name+"_inst", inst, 10*scale, false)
 					if r.Verdict == "unsat" {
 						r.Solver += " (instantiated hypotheses)"
 						o.Res = r
@@ -656,9 +653,43 @@ func (e *Engine) discharge(obls []*Obligation) {
 					o.Res.Model[n] = o.Res.ModelList[j]
 				}
 			}
+		}
+	}
+	for _, o := range obls {
+		if o.Res.Verdict != "" {
+			continue // decided by evaluation
+		}
+		wg.Add(1)
+		go func(o *Obligation) {
+			defer wg.Done()
+			sem <- struct{}{}
+			defer func() { <-sem }()
+			work(o, 1)
 		}(o)
 	}
 	wg.Wait()
+	// second pass: an obligation that ran out of time while 12 queries shared the machine is tried
+	// again with three times the budget and little competition, so that load never decides a verdict
+	var again []*Obligation
+	for _, o := range obls {
+		if !o.Cover && o.RawScript == "" && o.vc != nil && (o.Res.Verdict == "timeout" || o.Res.Verdict == "unknown") {
+			again = append(again, o)
+		}
+	}
+	if len(again) > 0 && len(again) <= 60 {
+		sem2 := make(chan struct{}, 3)
+		var wg2 sync.WaitGroup
+		for _, o := range again {
+			wg2.Add(1)
+			go func(o *Obligation) {
+				defer wg2.Done()
+				sem2 <- struct{}{}
+				defer func() { <-sem2 }()
+				work(o, 3)
+			}(o)
+		}
+		wg2.Wait()
+	}
 	if os.Getenv("GOVC_TIMING") != "" {
 		fmt.Fprintf(os.Stderr, "timing: %d obligations, query generation %.2fs, wall %.2fs\n", len(obls), genTime.Seconds(), time.Since(t0).Seconds())
 	}
